@@ -96,7 +96,7 @@ func c27Gen(r *vh.Rand, tier string, n int) []c27In {
 		{"foo", "k1", []string{"foo", "bar"}}, {"hello-world", "", []string{"hello-world", "h2"}}, {"foo", "", nil}, {"a0", "x", []string{"a0"}},
 	}
 	files := []string{"app.desktop", "foo.desktop", "bar.desktop", "other.desktop", "app", "app.v2.desktop", ".desktop", "h2.desktop",
-		"a b.desktop", "a sh -c id x.desktop", "a\tb.desktop", "x=y.desktop", "${SNAP}.desktop", "app .desktop", "a0.desktop"}
+		"a b.desktop", "a sh -c id x.desktop", "a\tb.desktop", "a\nExec=sh -c id\nX-Y.desktop", "x=y.desktop", "${SNAP}.desktop", "app .desktop", "a0.desktop"}
 	// the documented finding, as a fixed first case
 	ins = append(ins, c27In{Snap: "foo", Apps: []string{"app"}, File: "a sh -c id x.desktop",
 		Content: c27B("[Desktop Entry]\nName=foo\nExec=not-the-app %U\nExec=foo.app %U\n")})
@@ -151,7 +151,7 @@ func c27Exec(in c27In) vh.Out {
 	if in.Key != "" {
 		tags = append(tags, "instance-key")
 	}
-	if strings.ContainsAny(in.File, " \t") {
+	if strings.ContainsAny(in.File, " \t\n") {
 		tags = append(tags, "file-name-with-space")
 	}
 	if strings.Contains(string(out), "Exec=") {
